@@ -12,5 +12,8 @@ git -C /repo worktree prune >/dev/null 2>&1
 mkdir -p "$w/repo" && (cd /repo && git archive HEAD | tar -x -C "$w/repo")
 (cd "$w/repo" && git init -q && git apply "$patch") || { echo "patch does not apply"; exit 2; }
 rsync -a --exclude .git --exclude replays --exclude 'evidence/*.json' /verif/ "$w/verif/"
+# the copy is brought to the COMMITTED state of /verif (work in progress of concurrently running agents - untracked or
+# modified sources - must not leak into the result); build outputs (.lake, harness/bin) are kept to save time
+(cd /verif && git archive HEAD | tar -x -C "$w/verif") && (cd /verif && git ls-files --others --exclude-standard -- harness lean/ParsleyVerif | grep -E '\.(go|lean)$' | while read f; do rm -f "$w/verif/$f"; done)
 sed -i "s#=> /repo#=> $w/repo#" "$w/verif/harness/go.mod"
 cd "$w/verif" && VERIF_REPO="$w/repo" ./check "$prop" "$tier" 2>&1 | grep -E '^(VIOLATION|KNOWN|check |corr )' | sed "s#$w##g" | cut -c1-260 | head -60; [ -n "${SEED_ISO_FULL:-}" ] && cat "$w/verif/replays/"*proof.json
